@@ -9,7 +9,7 @@ EXPLANATION = ("The canonical form is specified in Coq from the encoding specifi
                "version independence), the canonical bytes decode to exactly the canonical representative, which is equal to "
                "the value; canonicalising what was read back returns the same bytes; the output is one word-aligned segment; "
                "capabilities have no canonical form. capnp.Canonicalize is modelled step by step over the builder and reader "
-               "models (coq/Value/CanonM.v); [T2] (model = specification) is proved by a heap-level induction for EVERY value "
+               "models (coq/Value/CanonM.v); [T2] (model = specification) is proved by a heap-level induction for every value (root struct with whole-word data section) "
                "(canon_m_correct: structs, void / bit / primitive / pointer / struct lists, any depth and layout), and a "
                "value containing a capability never yields bytes (canon_m_cap_error). On every generated input "
                "the harness compares Canonicalize's bytes with the extracted model AND with canon applied to the walked tree, "
@@ -17,7 +17,7 @@ EXPLANATION = ("The canonical form is specified in Coq from the encoding specifi
                "for all layouts and schema versions of a value).")
 TRUSTED = ["canonical-form specification coq/Value/CanonSpec.v written from encoding.html#canonicalization (trusted reading)",
            "model coq/Value/CanonM.v hand-written from canonical.go over coq/Core/Builder.v and Reader.v; its agreement with "
-           "the specification ([T2]) is proved for every value (canon_m_correct); the IMPLEMENTATION is tied to the model and "
+           "the specification ([T2]) is proved for every value under the whole-word premise on the root struct (canon_m_correct); the IMPLEMENTATION is tied to the model and "
            "to the SPECIFICATION by the "
            "correspondence run (Canonicalize bytes = canon (denote (walk input)) on every case, 0 disagreements)",
            "the strict decoder cdecode is tied to the library's reader only by the run (flag R: output read back with the Go "
@@ -31,17 +31,28 @@ LEVEL_TEXT = ("Proof ([T1], all values): canon_unique (value_eqs a b -> canon a 
               "decoder reads the canonical bytes back as exactly norm v), canon_decodes_equal (value_eqs and value_eq to v), "
               "canon_idempotent, canon_norm, canon_aligned, canon_cap_none; cparse_enc for every normal-form value incl. bit, "
               "primitive and struct lists. [T2] (Go-faithful model = specification) proved by mutual induction on fuel over "
-              "canonicalPtr / fillCanonicalStruct / canonicalList (Q_all) for EVERY value: canon_m_correct(_full) (bytes "
-              "returned = canon of the denoted value, never a panic), canon_m_cap_error (capability => error, never bytes), "
-              "non-vacuity instances; its three consequences for Canonicalize (layout independence, value preservation, "
-              "idempotence) are unconditional. Defects F04, O2 and O3 found by the run and fixed; pre-fix "
-              "models kept with witnesses.")
-LEVEL_NOTE = ("Level 'proof' covers [T1] (the specification-level theorems) AND the stretch theorem [T2]: the Go-faithful model of "
-              "Canonicalize returns exactly the specification's canonical bytes for every value, with no domain restriction. Not "
-              "proved: which inputs make Canonicalize return an error instead of bytes (limits, sizes); only 'never a panic' and "
-              "'a capability never yields bytes' are. [T2] is about the hand-written model; the implementation is tied to the "
-              "model and the specification by the differential run on every case. Trusted: Coq kernel, extraction, harness, "
-              "hand-written model and specification.")
+              "canonicalPtr / fillCanonicalStruct / canonicalList (Q_all) for every value, UNDER THE PREMISE that the struct handed "
+              "to Canonicalize has a data section of whole words (every struct the reader hands out; not List.Struct(i) of a "
+              "1/2/4-byte list): canon_m_correct(_full) (bytes returned = canon of the denoted value, never a panic), "
+              "canon_m_cap_error (capability => error or fuel exhaustion, never bytes), non-vacuity instances. Consequences: "
+              "layout independence (value_eqs inputs => same bytes); value preservation w.r.t. the specification's strict "
+              "decoder cdecode with 'good v' as a hypothesis; idempotent_given_readback (the read-back value is a hypothesis: "
+              "layout independence instantiated, not idempotence by itself). Defects F04, O2, O3 (found by the run) and S1 "
+              "(sub-word list members, found by the independent review) fixed; pre-fix models kept with witnesses "
+              "(canon_subword_refuted: three computed instances, as found = empty struct, repaired = canon).")
+LEVEL_NOTE = ("Level 'proof' covers [T1] (the specification-level theorems, all values) and [T2]: the Go-faithful model of "
+              "Canonicalize returns exactly the specification's canonical bytes of the denoted value -- for every value, but "
+              "only for structs whose data section is a whole number of words (premise DataSize mod 8 = 0 in every [T2] "
+              "theorem: true for structs handed out by the reader and for struct-list elements). NOT covered by a theorem: "
+              "Canonicalize(l.Struct(i)) for elements of 1/2/4-byte lists -- there the code as found was wrong (empty struct; "
+              "defect S1, repo fix 0fb41d1); for the repaired code only three computed instances and the differential run "
+              "(list members of every list kind are generated) cover it. Also NOT proved: which inputs make Canonicalize "
+              "return an error instead of bytes (only 'never a panic' and 'a capability never yields bytes'); that the "
+              "library READER reads the output back as an equal value (value preservation is stated with the specification's "
+              "own strict decoder cdecode, and 'idempotence' takes the read-back value as a hypothesis; the run checks both "
+              "on every case, flags R and I); uniqueness is for value_eqs, not Equal's value_eq. [T2] is about the "
+              "hand-written model; the implementation is tied to it by the differential run. Trusted: Coq kernel, "
+              "extraction, harness, hand-written model and specification.")
 TECHNIQUE = "Coq proof over an executable model + extracted-model/implementation differential run"
 DESIGN_REF = "DESIGN.md section 6, C18"
 
